@@ -14,6 +14,8 @@ import EV.Proofs.ScriptBuilder
 import EV.Proofs.ScriptAddress
 import EV.Proofs.BridgeScriptAddress
 import EV.Props.C06
+import EV.Proofs.ScriptAsm
+import EV.Proofs.ScriptNumMin
 namespace EV.Props.C16
 open EV EV.Script EV.Gen
 open EV.Proofs.ScriptIter EV.Proofs.ScriptNum EV.Proofs.ScriptBuilder EV.Proofs.ScriptTemplates EV.Proofs.ScriptAddress
@@ -366,5 +368,368 @@ example : fromScript (p2shScript (List.replicate 20 7)) = some (.scriptHash (Lis
     Addr.BlinderOk { sha256d := fun _ => [], validPk := fun _ => true } none ∧
     EV.Proofs.BridgeScriptAddress.toAddrPayload (.scriptHash (List.replicate 20 7)) = .sh (List.replicate 20 7) :=
   ⟨by decide, by decide, ⟨by decide, rfl, by intro b hb; rw [List.mem_replicate] at hb; omega⟩, trivial, by decide⟩
+
+/-! ## opcode classification and opcode names (src/opcodes.rs)
+
+  Model: EV.Model.Opcodes.  `classify` and `name` read tables that tools/extract.d/opcodes.py regenerates from
+  the `match`es of `All::classify` / `Debug for All` on every run (`EV.Gen.opClassLegacyTable`,
+  `opClassTapscriptTable`, `opNameTable`, `ordinaryOpcodes`); `classifyArms` is the same `match` written out over
+  the named constants.  An opcode is its byte; `none` = panic. -/
+
+section opcodes
+open EV.Opcodes
+
+/-- the generated tables and the arm-by-arm reading of `All::classify` agree on all 2 × 256 inputs -/
+theorem classify_eq_arms (ctx : Ctx) (b : UInt8) : classify ctx b = classifyArms ctx b :=
+  EV.Proofs.Opcodes.classify_eq_arms ctx b
+
+/-- in `Legacy` context — the only one `Instructions::next` and `fmt_asm` use — `classify` is total -/
+theorem classify_legacy_total (b : UInt8) : ∃ c, classify .legacy b = some c :=
+  Option.isSome_iff_exists.mp (EV.Proofs.Opcodes.classify_of_tableAll EV.Proofs.Opcodes.legacy_total_pass b)
+
+/-- FINDING (known_findings.jsonl, C16-CLASSIFY-TAPSCRIPT-PANIC): in `TapScript` context `classify` panics
+    (`Ordinary::try_from_all(self).unwrap()` on `None`) exactly for OP_CHECKSIGADD, OP_RETURN_192 and the 33
+    Elements tapscript opcodes OP_SHA256INITIALIZE ..= OP_TWEAKVERIFY: no arm claims them and they are not in
+    the `ordinary_opcode!` list -/
+theorem classify_tapscript_panics_iff (b : UInt8) : classify .tapScript b = none ↔
+    (b = opChecksigadd ∨ b = opReturn192 ∨ (opSha256initialize ≤ b ∧ b ≤ opTweakverify)) := by
+  have := EV.Proofs.Opcodes.classify_of_tableAll EV.Proofs.Opcodes.tapscript_none_pass b
+  rw [EV.Proofs.Opcodes.B_toNat] at this
+  exact of_decide_eq_true this
+
+/-- `PushBytes(n)` ↔ the byte is at most `OP_PUSHBYTES_75` and `n` is the byte (both contexts) -/
+theorem classify_push_bytes_iff (ctx : Ctx) (b : UInt8) (n : Nat) :
+    classify ctx b = some (.pushBytes n) ↔ (b ≤ opPushbytes75 ∧ n = b.toNat) := by
+  have h := EV.Proofs.Opcodes.classify_of_tableAll (EV.Proofs.Opcodes.pushBytes_pass ctx) b
+  rw [EV.Proofs.Opcodes.B_toNat] at h
+  by_cases c : b ≤ opPushbytes75
+  · simp only [c, if_true, beq_iff_eq] at h
+    rw [h]
+    constructor
+    · intro e; injection e with e; injection e with e; exact ⟨c, e.symm⟩
+    · rintro ⟨_, rfl⟩; rfl
+  · simp only [c, if_false, Bool.not_eq_true'] at h
+    constructor
+    · intro e; rw [e] at h; simp [EV.Proofs.Opcodes.isPushBytes] at h
+    · rintro ⟨c', _⟩; exact absurd c' c
+
+/-- `PushNum(n)` ↔ `OP_PUSHNUM_NEG1` with −1, or `OP_PUSHNUM_1 ..= OP_PUSHNUM_16` with 1..16 (both contexts) -/
+theorem classify_push_num_iff (ctx : Ctx) (b : UInt8) (n : Int) :
+    classify ctx b = some (.pushNum n) ↔
+      ((b = opPushnumNeg1 ∧ n = -1) ∨
+       (opPushnum1 ≤ b ∧ b ≤ opPushnum16 ∧ n = Int.ofNat b.toNat - Int.ofNat opPushnum1.toNat + 1)) := by
+  have h := EV.Proofs.Opcodes.classify_of_tableAll (EV.Proofs.Opcodes.pushNum_pass ctx) b
+  rw [EV.Proofs.Opcodes.B_toNat] at h
+  have hne : ¬ (opPushnum1 ≤ opPushnumNeg1 ∧ opPushnumNeg1 ≤ opPushnum16) := by decide
+  by_cases c1 : b = opPushnumNeg1
+  · simp only [c1, if_true, beq_iff_eq] at h
+    subst c1
+    rw [h]
+    constructor
+    · intro e; injection e with e; injection e with e; exact Or.inl ⟨rfl, e.symm⟩
+    · rintro (⟨_, rfl⟩ | ⟨a, b', _⟩)
+      · rfl
+      · exact absurd ⟨a, b'⟩ hne
+  · by_cases c2 : opPushnum1 ≤ b ∧ b ≤ opPushnum16
+    · simp only [c1, c2, and_self, if_true, if_false, beq_iff_eq] at h
+      rw [h]
+      constructor
+      · intro e; injection e with e; injection e with e; exact Or.inr ⟨c2.1, c2.2, e.symm⟩
+      · rintro (⟨a, _⟩ | ⟨_, _, rfl⟩)
+        · exact absurd a c1
+        · rfl
+    · simp only [c1, c2, if_false, Bool.not_eq_true'] at h
+      constructor
+      · intro e; rw [e] at h; simp [EV.Proofs.Opcodes.isPushNum] at h
+      · rintro (⟨a, _⟩ | ⟨a, b', _⟩)
+        · exact absurd a c1
+        · exact absurd ⟨a, b'⟩ c2
+
+/-- the remaining classes in `Legacy` context, as the match arms give them: `ReturnOp` = OP_RETURN, the four
+    reserved opcodes and every byte from OP_CHECKSIGADD (0xba) up except 0xff — this includes the Elements
+    opcodes OP_CHECKSIGFROMSTACK(VERIFY), OP_SUBSTR_LAZY and all tapscript-only opcodes; `IllegalOp` = the 3 + 15
+    listed; `NoOp` = OP_NOP and OP_NOP1..OP_NOP10 (with OP_CLTV, OP_CSV); `SuccessOp` never -/
+theorem classify_classes_legacy (b : UInt8) :
+    (classify .legacy b = some .returnOp ↔ (b = opReturn ∨ b = opReserved ∨ b = opReserved1 ∨ b = opReserved2 ∨
+        b = opVer ∨ (opChecksigadd ≤ b ∧ b ≠ opInvalidopcode))) ∧
+    (classify .legacy b = some .illegalOp ↔ b ∈ [opVerif, opVernotif, opInvalidopcode, opCat, opSubstr, opLeft,
+        opRight, opInvert, opAnd, opOr, opXor, op2mul, op2div, opMul, opDiv, opMod, opLshift, opRshift]) ∧
+    (classify .legacy b = some .noOp ↔ (b = opNop ∨ (opNop1 ≤ b ∧ b ≤ opNop10))) ∧
+    classify .legacy b ≠ some .successOp := by
+  have := EV.Proofs.Opcodes.classify_of_tableAll EV.Proofs.Opcodes.legacy_classes_pass b
+  rw [EV.Proofs.Opcodes.B_toNat] at this
+  exact of_decide_eq_true this
+
+/-- … and in `TapScript` context (where it does not panic): `ReturnOp` = OP_RETURN, OP_CHECKMULTISIG(VERIFY);
+    `IllegalOp` = OP_VERIF, OP_VERNOTIF, OP_INVALIDOPCODE; `SuccessOp` = the 40 bytes of the guard -/
+theorem classify_classes_tapscript (b : UInt8) :
+    (classify .tapScript b = some .returnOp ↔ (b = opReturn ∨ b = opCheckmultisig ∨ b = opCheckmultisigverify)) ∧
+    (classify .tapScript b = some .illegalOp ↔ (b = opVerif ∨ b = opVernotif ∨ b = opInvalidopcode)) ∧
+    (classify .tapScript b = some .noOp ↔ (b = opNop ∨ (opNop1 ≤ b ∧ b ≤ opNop10))) ∧
+    (classify .tapScript b = some .successOp ↔ (b.toNat = 80 ∨ b.toNat = 98 ∨ (137 ≤ b.toNat ∧ b.toNat ≤ 138) ∨
+        (141 ≤ b.toNat ∧ b.toNat ≤ 142) ∨ (149 ≤ b.toNat ∧ b.toNat ≤ 151) ∨ (187 ≤ b.toNat ∧ b.toNat ≤ 191) ∨
+        (229 ≤ b.toNat ∧ b.toNat ≤ 254))) := by
+  have := EV.Proofs.Opcodes.classify_of_tableAll EV.Proofs.Opcodes.tapscript_classes_pass b
+  rw [EV.Proofs.Opcodes.B_toNat] at this
+  exact of_decide_eq_true this
+
+/-- `Ordinary::try_from_all` succeeds exactly on the `ordinary_opcode!` list and returns the variant whose
+    discriminant (`into_u8`) is the opcode byte; hence it is injective -/
+theorem try_from_all_iff (b o : UInt8) : tryFromAll b = some o ↔ (o = b ∧ b ∈ ordinaryOpcodes) := by
+  rw [EV.Proofs.Opcodes.tryFromAll_eq]
+  by_cases c : b ∈ ordinaryOpcodes
+  · simp only [c, if_true, and_true]
+    exact ⟨fun e => (Option.some.inj e).symm, fun e => by rw [e]⟩
+  · simp [c]
+
+theorem try_from_all_injective (a b o : UInt8) (ha : tryFromAll a = some o) (hb : tryFromAll b = some o) : a = b := by
+  rw [((try_from_all_iff a o).mp ha).1.symm, ((try_from_all_iff b o).mp hb).1]
+
+/-- class `Ordinary(o)` ↔ `o` is the opcode itself, it is in the `ordinary_opcode!` list, and no earlier arm
+    claims it.  So "`try_from_all` succeeds iff the class is ordinary" is FALSE in both contexts: 13 listed
+    opcodes are `IllegalOp`/`ReturnOp` in `Legacy` (among them OP_CAT … OP_RSHIFT and OP_CHECKSIGFROMSTACK(VERIFY),
+    OP_SUBSTR_LAZY, which Elements executes), 2 are `ReturnOp` in `TapScript`. -/
+theorem classify_ordinary_iff_legacy (b o : UInt8) : classify .legacy b = some (.ordinary o) ↔
+    (o = b ∧ tryFromAll b = some b ∧ b ∉ [opCat, opSubstr, opLeft, opRight, opInvert, opAnd, opOr, opXor, opLshift,
+      opRshift, opChecksigfromstack, opChecksigfromstackverify, opSubstrLazy]) := by
+  have h := EV.Proofs.Opcodes.classify_of_tableAll (EV.Proofs.Opcodes.ordinary_pass .legacy) b
+  rw [EV.Proofs.Opcodes.B_toNat] at h
+  rw [try_from_all_iff]
+  by_cases c : ordinaryOpcodes.contains b && !(EV.Proofs.Opcodes.ordinaryElsewhere .legacy).contains b
+  · rw [if_pos c, beq_iff_eq] at h
+    simp only [Bool.and_eq_true, List.contains_eq_mem, decide_eq_true_eq, Bool.not_eq_true', decide_eq_false_iff_not] at c
+    rw [h]
+    constructor
+    · intro e; injection e with e; injection e with e; exact ⟨e.symm, ⟨rfl, c.1⟩, c.2⟩
+    · rintro ⟨rfl, _⟩; rfl
+  · rw [if_neg c] at h
+    simp only [Bool.and_eq_true, List.contains_eq_mem, decide_eq_true_eq, Bool.not_eq_true', decide_eq_false_iff_not] at c
+    constructor
+    · intro e; rw [e] at h; simp [EV.Proofs.Opcodes.isOrdinary] at h
+    · rintro ⟨_, ⟨_, hm⟩, hn⟩; exact absurd ⟨hm, hn⟩ c
+
+theorem classify_ordinary_iff_tapscript (b o : UInt8) : classify .tapScript b = some (.ordinary o) ↔
+    (o = b ∧ tryFromAll b = some b ∧ b ∉ [opCheckmultisig, opCheckmultisigverify]) := by
+  have h := EV.Proofs.Opcodes.classify_of_tableAll (EV.Proofs.Opcodes.ordinary_pass .tapScript) b
+  rw [EV.Proofs.Opcodes.B_toNat] at h
+  rw [try_from_all_iff]
+  by_cases c : ordinaryOpcodes.contains b && !(EV.Proofs.Opcodes.ordinaryElsewhere .tapScript).contains b
+  · rw [if_pos c, beq_iff_eq] at h
+    simp only [Bool.and_eq_true, List.contains_eq_mem, decide_eq_true_eq, Bool.not_eq_true', decide_eq_false_iff_not] at c
+    rw [h]
+    constructor
+    · intro e; injection e with e; injection e with e; exact ⟨e.symm, ⟨rfl, c.1⟩, c.2⟩
+    · rintro ⟨rfl, _⟩; rfl
+  · rw [if_neg c] at h
+    simp only [Bool.and_eq_true, List.contains_eq_mem, decide_eq_true_eq, Bool.not_eq_true', decide_eq_false_iff_not] at c
+    constructor
+    · intro e; rw [e] at h; simp [EV.Proofs.Opcodes.isOrdinary] at h
+    · rintro ⟨_, ⟨_, hm⟩, hn⟩; exact absurd ⟨hm, hn⟩ c
+
+/-- sizes of the classes (PushNum, PushBytes, ReturnOp, SuccessOp, IllegalOp, NoOp, Ordinary, panic).  The
+    comments in the source announce 61 / 60 `Ordinary` opcodes for Legacy / TapScript and 87 `SuccessOp`s; the
+    code has 60 / 71 (+ 35 panics) and 40. -/
+theorem class_counts : EV.Proofs.Opcodes.classCounts .legacy = [17, 76, 74, 0, 18, 11, 60, 0] ∧
+    EV.Proofs.Opcodes.classCounts .tapScript = [17, 76, 3, 40, 3, 11, 71, 35] := EV.Proofs.Opcodes.classCounts_eq
+
+/-- the `Display`/`Debug` names of the 256 opcodes are pairwise distinct, and each is the identifier of its
+    constant in `mod all` (what the crate's unit test `str_roundtrip` asserts) -/
+theorem opcode_names_distinct (a b : UInt8) (h : name a = name b) : a = b := EV.Proofs.Opcodes.name_injective h
+
+theorem opcode_name_is_const_identifier : opNameTable = opConstNames := EV.Proofs.Opcodes.opNameTable_eq_constNames
+
+/-- … and so are the texts `fmt_asm` writes (`OP_0` instead of `OP_PUSHBYTES_0`): the asm of a single opcode
+    identifies it -/
+theorem asm_opcode_injective (a b : UInt8) (h : asmOpcode a = asmOpcode b) : a = b :=
+  EV.Proofs.ScriptAsmText.asmOpcode_injective h
+
+/-- bridge to the iterator model: the byte tests `next` makes are `classify(Legacy)` — `PushBytes(n)` exactly
+    below `OP_PUSHDATA1`, and the three PUSHDATA opcodes are `Ordinary` -/
+theorem iterator_classification (b : UInt8) :
+    (b ≤ opPushbytes75 ↔ ∃ n, classify .legacy b = some (.pushBytes n)) ∧
+    classify .legacy opPushdata1 = some (.ordinary opPushdata1) ∧
+    classify .legacy opPushdata2 = some (.ordinary opPushdata2) ∧
+    classify .legacy opPushdata4 = some (.ordinary opPushdata4) := by
+  refine ⟨⟨fun h => ⟨b.toNat, (classify_push_bytes_iff .legacy b b.toNat).mpr ⟨h, rfl⟩⟩,
+    fun ⟨n, h⟩ => ((classify_push_bytes_iff .legacy b n).mp h).1⟩, ?_, ?_, ?_⟩ <;>
+  · rw [classify_ordinary_iff_legacy, try_from_all_iff]; decide
+
+end opcodes
+
+/-! ## script numbers: minimal encodings -/
+
+section scriptnum
+open EV.Proofs.ScriptNumMin
+
+/-- `read_scriptint` rejects exactly the over-long strings (more than 4 bytes, `NumericOverflow`); every
+    string of at most 4 bytes is read, minimal or not (`[0x00]`, `[0x80]` "negative zero", `[0x01, 0x00]` …) -/
+theorem read_scriptint_rejects_only_overlong (v : Bytes) :
+    (readScriptInt v = .err "NumericOverflow" ↔ 4 < v.length) ∧ (v.length ≤ 4 → ∃ i, readScriptInt v = .ok i) :=
+  ⟨readScriptInt_err_iff v, readScriptInt_ok_of_le v⟩
+
+/-- `build_scriptint` output is minimal: no redundant trailing `0x00` / `0x80` sign byte -/
+theorem build_scriptint_minimal (n : Int) (hr : i64Min < n ∧ n < 2 ^ 63) : minimalNum (buildScriptInt n) = true :=
+  buildScriptInt_minimal n (by unfold i64Min at hr; omega)
+
+/-- reading a string of at most 4 bytes and building the value again gives the string back exactly when it
+    is minimal -/
+theorem read_then_build_iff_minimal (v : Bytes) (h4 : v.length ≤ 4) (i : Int) (hr : readScriptInt v = .ok i) :
+    buildScriptInt i = v ↔ minimalNum v = true := build_read_iff_minimal v h4 i hr
+
+/-- `push_int` uses `build_scriptint` (through `push_scriptint` / `push_slice`) exactly outside −1, 0, 1..16 -/
+theorem push_int_uses_build_scriptint (b : Builder) (n : Int) (h : n ≠ -1 ∧ n ≠ 0 ∧ ¬ (1 ≤ n ∧ n ≤ 16)) (hm : n ≠ i64Min) :
+    b.pushInt n = b.pushSlice (buildScriptInt n) := by
+  have c : ¬ (n = -1 ∨ (1 ≤ n ∧ n ≤ 16)) := fun e => e.elim h.1 h.2.2
+  simp [Builder.pushInt, Builder.pushScriptInt, c, h.2.1, hm]
+
+example : readScriptInt [0x01, 0x00] = .ok 1 ∧ buildScriptInt 1 = [0x01] ∧ minimalNum [0x01, 0x00] = false ∧
+    readScriptInt [0x80] = .ok 0 ∧ minimalNum [0x80] = false ∧ minimalNum [0xff, 0x00] = true := by decide
+example : i64Min < (2 ^ 63 - 1 : Int) ∧ minimalNum (buildScriptInt (2 ^ 63 - 1)) = true := by decide
+example : (17 : Int) ≠ -1 ∧ (17 : Int) ≠ 0 ∧ ¬ (1 ≤ (17 : Int) ∧ (17 : Int) ≤ 16) ∧ (17 : Int) ≠ i64Min := by decide
+
+end scriptnum
+
+/-! ## the text forms of a script (`fmt_asm` / `asm`, `Debug`, `Display`, `{:x}`, `{:X}`)
+
+  Model: EV.Model.ScriptAsm.  The formatter's quirks are modelled as they are: a script whose first opcode is
+  `OP_PUSHDATA1/2/4` starts with a space (the separator test is `index > 1` after the length bytes), an error
+  marker of a cut-off length field is written without separator and without the opcode, and the length field
+  itself is never printed. -/
+
+section asm
+open EV.Proofs.ScriptAsm
+
+/-- `fmt_asm` never panics and never fails (`asm()` unwraps it) -/
+theorem asm_total (s : Bytes) : ∃ cs, asm s = some cs := EV.Proofs.ScriptAsm.asm_total s
+
+/-- the `<bad length>` branches are unreachable (the length test before `read_uint` is the same test) -/
+theorem bad_length_unreachable (b : UInt8) (tl : Bytes) : dataLen b tl ≠ some .badLength := by
+  rw [dataLen_eq]
+  cases hdr b tl with
+  | none => simp
+  | some kn => simp
+
+/-- **asm is injective on cleanly decoding scripts**: two scripts whose instruction streams have no error and
+    that print the same text are the same byte string.  The opcode text names the push opcode (so the width of
+    a PUSHDATA length field is visible), the hex word gives the data and hence the value of the length field;
+    `OP_0` / `OP_PUSHDATA1` with length 0 / `OP_PUSHBYTES_1 xx` / `OP_PUSHDATA1 xx` all print differently. -/
+theorem asm_injective_clean (s t : Bytes) (hs : (instructions s).2 = none) (ht : (instructions t).2 = none)
+    (h : asm s = asm t) : s = t := EV.Proofs.ScriptAsm.asm_injective_clean s t hs ht h
+
+/-- an error marker (`<unexpected end>`, `<push past end>`) is printed exactly when the instruction stream
+    has an error: the text of a clean script contains no `<` -/
+theorem asm_marker_iff_error (s : Bytes) : (instructions s).2 = none ↔ ∃ cs, asm s = some cs ∧ '<' ∉ cs :=
+  asm_marker_iff s
+
+/-- hence the text of a clean script is shared with no other script at all -/
+theorem asm_clean_determines_script (s t : Bytes) (hs : (instructions s).2 = none) (h : asm s = asm t) : s = t := by
+  obtain ⟨cs, hcs, hn⟩ := (asm_marker_iff s).mp hs
+  exact asm_injective_clean s t hs ((asm_marker_iff t).mpr ⟨cs, h ▸ hcs, hn⟩) h
+
+/-- the ambiguity that does exist: scripts that end in a decode error.  A cut-off length field prints only
+    the marker, a cut-off push prints neither the announced length nor the bytes that are there. -/
+example : asm [0x4c] = asm [0x4d] ∧ asm [0x4d] = asm [0x4d, 0x00] ∧ asm [0x02] = asm [0x02, 0xaa] ∧
+    asm [0x4c, 0x05, 0xaa] = asm [0x4c, 0x06, 0xbb, 0xcc] := by decide
+/-- … and what does not collide -/
+example : asm [0x00] = some "OP_0".toList ∧ asm [0x4c, 0x00] = some " OP_PUSHDATA1".toList ∧
+    asm [0x01, 0xaa] = some "OP_PUSHBYTES_1 aa".toList ∧ asm [0x4c, 0x01, 0xaa] = some " OP_PUSHDATA1 aa".toList ∧
+    asm [0x4d, 0x01, 0x00, 0xaa] = some " OP_PUSHDATA2 aa".toList ∧
+    asm [0x51, 0x4c] = some "OP_PUSHNUM_1<unexpected end>".toList := by decide
+example : (instructions [0x76, 0xa9, 0x01, 0xaa]).2 = none ∧ (instructions [0x4c, 0x01]).2 = some .earlyEnd := by decide
+
+/-- asm of a canonically encoded instruction list is its items (opcode text, for a non-empty push followed by
+    the data in hex) separated by single spaces (after a leading space if the first push has 76 bytes or more) -/
+theorem asm_serialize (is : List Instr) (h : ∀ i ∈ is, i.wf) : asm (serialize is) = some (asmItems is) :=
+  EV.Proofs.ScriptAsm.asm_serialize is h
+
+/-- bridge to the builder: the asm (and `Debug`/`Display`) text of a built script is the text of the
+    instructions that were added -/
+theorem asm_build (ops : List BOp) (h : ∀ o ∈ ops, o.wf) :
+    ∃ s, build ops = some s ∧ asm s = some (asmItems (expected ops)) ∧
+      debug s = some (scriptDebugOpen ++ asmItems (expected ops) ++ scriptDebugClose) := by
+  obtain ⟨hb, hw⟩ := EV.Proofs.ScriptBuilder.build_eq_serialize false ops (fun o ho => ⟨h o ho, by simp⟩)
+  have ha := asm_serialize _ (fun i hi => (hw i hi).1)
+  exact ⟨_, hb, ha, by simp [debug, ha]⟩
+
+/-- one item per builder call when `push_verify` is not used (with it, a fold replaces the previous item:
+    `expected_verify`) -/
+theorem asm_build_one_item_per_call (ops : List BOp) (h : ∀ o ∈ ops, o.wf) (hv : ∀ o ∈ ops, o ≠ .verify) :
+    ∃ s, build ops = some s ∧ asm s = some (asmLead (ops.map instrOf) ++ [' '].intercalate (ops.map (asmItem ∘ instrOf))) ∧
+      (ops.map (asmItem ∘ instrOf)).length = ops.length := by
+  obtain ⟨s, hb, ha, _⟩ := asm_build ops h
+  rw [expected_no_verify ops hv] at ha
+  exact ⟨s, hb, by rw [ha, asmItems, List.map_map], by simp⟩
+
+example : asm (p2pkhScript (List.replicate 20 7)) =
+    some "OP_DUP OP_HASH160 OP_PUSHBYTES_20 0707070707070707070707070707070707070707 OP_EQUALVERIFY OP_CHECKSIG".toList := by
+  decide
+example : asmItems [.push [0xab, 0xcd], .op opChecksig, .push []] = "OP_PUSHBYTES_2 abcd OP_CHECKSIG OP_0".toList ∧
+    asmLead [.push (List.replicate 76 0xab), .op opChecksig] = [' '] := by decide
+
+/-- `{:x}` and `{:X}` of a script parse back to the script (`Script::from_hex_no_prefix` accepts both cases) -/
+theorem hex_forms_parse_back (s : Bytes) :
+    Hex.decodeChars (lowerHex s) = some s ∧ Hex.decodeChars (upperHex s) = some s :=
+  ⟨EV.Text.decodeChars_hexStr s, decodeChars_upperHex s⟩
+
+end asm
+
+/-! ## the remaining constructors: `new_op_return`, `to_p2sh`, `to_v0_p2wsh` -/
+
+section constructors
+
+/-- `Script::new_op_return(data)` is recognised by `is_op_return` and `is_provably_unspendable`, and iterates
+    as OP_RETURN followed by the push of `data` -/
+theorem new_op_return_is_op_return (d : Bytes) (h : d.length < 2 ^ 32) :
+    ∃ s, newOpReturn d = some s ∧ isOpReturn s = true ∧ isProvablyUnspendable s = true ∧
+      instructions s = ([.op opReturn, .push d], none) := by
+  have hwf : ∀ o ∈ [BOp.opcode opReturn, BOp.slice d], o.wf := by
+    intro o ho
+    rcases List.mem_cons.mp ho with rfl | ho
+    · exact Or.inr (by decide)
+    · rcases List.mem_cons.mp ho with rfl | ho
+      · exact h
+      · cases ho
+  obtain ⟨s, hb, hi⟩ := instructions_build _ hwf
+  have he : expected [BOp.opcode opReturn, BOp.slice d] = [.op opReturn, .push d] := by
+    rw [expected_no_verify _ (by intro o ho; rcases List.mem_cons.mp ho with rfl | ho; · simp
+                                 · rcases List.mem_cons.mp ho with rfl | ho; · simp
+                                   · cases ho)]
+    have : opReturn ≠ opPushbytes0 := by decide
+    simp [instrOf, instrOfOpcode, this]
+  have hs : s = serialize [.op opReturn, .push d] := by
+    have := build_bytes _ hwf; rw [hb, he] at this; exact Option.some.inj this
+  have hop : ∃ rest, s = opReturn :: rest :=
+    ⟨(pushHeader d.length).getD [] ++ d, by rw [hs]; simp [serialize, encInstr]⟩
+  exact ⟨s, hb, (is_op_return_iff s).mpr hop, (is_provably_unspendable_iff s).mpr (Or.inl hop), by rw [hi, he]⟩
+
+/-- `Script::to_p2sh` is `new_p2sh(script_hash)`: the p2sh pattern of the script's hash160, recognised by
+    `is_p2sh`, and `Address::from_script` gives back that script hash -/
+theorem to_p2sh_is_p2sh (H : ScriptHashes) (h20 : ∀ x, (H.hash160 x).length = 20) (s : Bytes) :
+    toP2sh H s = newP2sh (H.hash160 s) ∧ toP2sh H s = some (p2shScript (H.hash160 s)) ∧
+      isP2sh (p2shScript (H.hash160 s)) = true ∧
+      fromScript (p2shScript (H.hash160 s)) = some (.scriptHash (H.hash160 s)) := by
+  have hs : (Payload.scriptHash (H.hash160 s)).standard := h20 s
+  exact ⟨rfl, scriptPubkey_standard hs, (is_p2sh_iff _).mpr ⟨_, h20 s, rfl⟩, fromScript_pattern hs⟩
+
+/-- `Script::to_v0_p2wsh` is `new_v0_wsh(wscript_hash)`: version 0 with the 32-byte sha256 of the script,
+    recognised by `is_v0_p2wsh` (and `is_witness_program`), with the v0 address of that program -/
+theorem to_v0_p2wsh_is_v0_p2wsh (H : ScriptHashes) (h32 : ∀ x, (H.sha256 x).length = 32) (s : Bytes) :
+    toV0P2wsh H s = newWitnessProgram 0 (H.sha256 s) ∧
+      toV0P2wsh H s = some (witnessScript opPushbytes0 (H.sha256 s)) ∧
+      isV0P2wsh (witnessScript opPushbytes0 (H.sha256 s)) = true ∧
+      isWitnessProgram (witnessScript opPushbytes0 (H.sha256 s)) = true ∧
+      fromScript (witnessScript opPushbytes0 (H.sha256 s)) = some (.witnessProgram 0 (H.sha256 s)) := by
+  have hs : (Payload.witnessProgram 0 (H.sha256 s)).standard := Or.inl ⟨rfl, Or.inr (h32 s)⟩
+  have e : toV0P2wsh H s = scriptPubkey (.witnessProgram 0 (H.sha256 s)) := rfl
+  have hw : isV0P2wsh (witnessScript opPushbytes0 (H.sha256 s)) = true := (is_v0_p2wsh_iff _).mpr ⟨_, h32 s, rfl⟩
+  exact ⟨by rw [e, newWitnessProgram_eq 0 _ (by omega)], by rw [e]; exact scriptPubkey_standard hs, hw,
+    special_cases_are_witness_programs _ (Or.inr (Or.inl hw)), fromScript_pattern hs⟩
+
+/-- the hypotheses are satisfiable -/
+example : ∃ H : ScriptHashes, (∀ x, (H.hash160 x).length = 20) ∧ (∀ x, (H.sha256 x).length = 32) :=
+  ⟨⟨fun _ => List.replicate 20 0, fun _ => List.replicate 32 0⟩, fun _ => by simp, fun _ => by simp⟩
+example : newOpReturn [1, 2, 3] = some [0x6a, 0x03, 1, 2, 3] := by decide
+
+end constructors
 
 end EV.Props.C16
